@@ -53,22 +53,22 @@ Print Assumptions c19_returned_is_recorded.
    back n; CAS block releasing m -> decrement m; any number of clients, all interleavings, crashes.  (Kept as the
    readable abstract statement; the same facts are proved for the PROGRAMS below: c19_handle_agrees_quiescent and
    c19_handle_never_undercounts.) *)
-Theorem c19_handle_agrees_quiescent_partial : forall n s, preach n s ->
+Theorem c19_counting_protocol_agrees_quiescent : forall n s, preach n s ->
   Forall (fun p => p = PIdle) (p_clients s) -> forall h c, p_hcnt s h c = p_alloc s h c.
 Proof. exact handle_agrees_quiescent. Qed.
-Print Assumptions c19_handle_agrees_quiescent_partial.
+Print Assumptions c19_counting_protocol_agrees_quiescent.
 
-Theorem c19_handle_ledger : forall n s, preach n s ->
+Theorem c19_counting_protocol_ledger : forall n s, preach n s ->
   forall h c, p_hcnt s h c = (p_alloc s h c + total_debt (p_clients s) h c)%nat.
 Proof. exact handle_ledger. Qed.
-Print Assumptions c19_handle_ledger.
+Print Assumptions c19_counting_protocol_ledger.
 
 (* same protocol, unconditional (crashes and abandoned roll-backs included): a handle never UNDER-counts, so
    every owned address stays reachable from its handle *)
-Theorem c19_handle_never_undercounts_partial : forall n s, preach n s ->
+Theorem c19_counting_protocol_never_undercounts : forall n s, preach n s ->
   forall h c, (p_alloc s h c <= p_hcnt s h c)%nat.
 Proof. exact handle_never_undercounts. Qed.
-Print Assumptions c19_handle_never_undercounts_partial.
+Print Assumptions c19_counting_protocol_never_undercounts.
 
 (* The faithful model of the UNFIXED code violates handle agreement at a quiescent state (concrete runs,
    replayed against the real code by the driver: see the report). *)
@@ -101,6 +101,7 @@ Print Assumptions c19_one_block_per_address.
    T3 for the PROGRAMS (Debt.v, Ledger.v).  The fixed code: cf_count_requested = cf_aip_leak = cf_stale_cache =
    false and releaseByHandle returns on a not-found delete (fy = true); fx arbitrary.  hcnt_of s h c is
    handle h's count for block c in datastore s, alloc_of s h c the number of ordinals of block c owned by h.
+   All operations of the model are covered, AutoAssign / AssignIP with MaxAllocToHandlePerIPVersion included.
    wf_op: the addresses of a ReleaseIPs lie at or above the block's first address (the model's domain).
    within_budget: no client is handed more than B conflict answers (injected or real) during the run and
    B + 2 <= cf_retries, so that no roll-back is abandoned after cf_retries attempts (the Go code gives up there).
@@ -150,3 +151,43 @@ Theorem c19_model_run_is_sys_run : forall cf fx fy clients os s' cls',
       (sys_run (sys0 cf fx fy clients) (map (fun o => {| ev_client := o_client o; ev_fault := o_fault o |}) os)).
 Proof. exact model_run_is_sys_run. Qed.
 Print Assumptions c19_model_run_is_sys_run.
+
+(* ------------------------------------------------------------------------------------------------------------
+   Model meets spec — PARTIAL.  The oracle Spec.ok_trace has four clauses; for EVERY run of the model (any
+   clients, any schedule, conflicts, crashes, both variants fx; fy = true and the fixed flags for (d)) the
+   corresponding statements are proved at the Prop level:
+     (a) written blocks are well formed           <- c19_single_owner (FIFO duplicate-free, only un-owned ordinals,
+                                                     valid attribute indexes), block stored under its CIDR
+     (b) no write changes the owner of an address <- c19_step_is_one_cas_transformation + c19_no_steal
+     (c) returned addresses are recorded          <- c19_returned_is_recorded (MaxAlloc shortcuts included)
+     (d) handles agree when nobody is in flight   <- c19_handle_agrees_quiescent (+ c19_handle_never_undercounts)
+   and the runner used by the correspondence is the system of these theorems (c19_model_run_is_sys_run).
+   Missing for the boolean statement "ok_trace accepts every model trace":
+     1. the converse half of wf_block_b: every ordinal without owner IS in the FIFO, and |Allocations| = block
+        size for all versions (needs an invariant I_b' = I_b + those two, preserved by blk_auto_assign, blk_assign,
+        free_ordinals, compact; I_b itself is imported by C20/C22 and was left unchanged);
+     2. frame_ok's per-operation attribution (a freed address is named by the running release; a taken one
+        carries the running assign's handle and attributes): a post-condition per program on the written value;
+     3. handles_agree's side conditions that no stored handle is empty or has a zero count (invariant on handle
+        values: hinc with n > 0, hdec removing entries that reach 0);
+     4. boolean reflection of the above along the observation list (os_taken / os_seen bookkeeping).
+   The conjunction below is what IS proved, packaged for one run. *)
+Theorem c19_model_meets_spec_partial : forall cf fx clients evs,
+  cf_count_requested cf = false -> cf_aip_leak cf = false -> cf_stale_cache cf = false -> cf_bsize cf <> O ->
+  Forall (fun hc => Forall (wf_op cf) (snd hc)) clients ->
+  let y := sys_run (sys0 cf fx true clients) evs in
+  (* (a) *)
+  (forall e c b, In e (st_ents (sy_store y)) -> e_key e = KBlock c -> e_val e = VBlock b ->
+     bk_cidr b = c /\ NoDup (bk_unalloc b) /\ (forall o, In o (bk_unalloc b) -> owner_of b o = None)) /\
+  (* (b) *)
+  (forall ev, Cas.effect key_eqb key_ltb create_ok update_ok delete_ok (sy_store y) (sy_store (sys_step y ev))) /\
+  (* (c) *)
+  (forall i l, nth_error (sy_clients y) i = Some (CRun (Ret l)) ->
+     exists H', Cas.store_hist (sy_store y) H' /\ Cas.hist_ok VI H' /\ Forall (fun p => op_post cf (fst p) H' (snd p)) l) /\
+  (* (d) *)
+  (forall h c, (alloc_of (sy_store y) h c <= hcnt_of (sy_store y) h c)%N) /\
+  (forall B, within_budget cf fx clients evs B ->
+     Forall (fun c => exists l, c = CRun (Ret l)) (sy_clients y) ->
+     forall h c, hcnt_of (sy_store y) h c = alloc_of (sy_store y) h c).
+Proof. exact model_meets_spec_partial. Qed.
+Print Assumptions c19_model_meets_spec_partial.
